@@ -180,10 +180,47 @@ def contains(interp, container, item, text=''):
     return interp.decide(text or 'in', [True, False])
 
 
+def is_dt_record(v):
+    return isinstance(v, Obj) and v.cls.module is None and v.cls.name == 'datetime' and 'year' in v.attrs
+
+
+def dt_record_replace(interp, rec, kwargs):
+    """datetime.replace(year=.., month=.., day=..) on a component record: a new record; 29 February of a common year raises."""
+    attrs = dict((kk, vv) for kk, vv in rec.attrs.items() if kk != '<sym>')
+    for kk, vv in kwargs.items():
+        if kk not in ('year', 'month', 'day'):
+            raise Unmodelled('datetime.replace(%s=...)' % kk)
+        attrs[kk] = vv
+    mo, day = attrs.get('month'), attrs.get('day')
+    feb = isinstance(mo, Const) and mo.value == 2
+    small = isinstance(day, Const) and isinstance(day.value, int) and day.value <= 28
+    if (feb or not isinstance(mo, Const)) and not small:
+        if interp.decide('replace(): 29 February in a common year (%r-%r-%r)' % (attrs.get('year'), mo, day), [False, True], ('feb29', None)):
+            raise Raised(Exc('ValueError', 'day is out of range for month'))
+    return Obj(rec.cls, attrs)
+
+
+def dt_record_compare(interp, name, a, b, text):
+    """Lexicographic order on (year, month, day) of two component records."""
+    strict = {'lt': 'lt', 'le': 'lt', 'gt': 'gt', 'ge': 'gt'}.get(name)
+    for comp in ('year', 'month', 'day'):
+        x, y = a.attrs.get(comp), b.attrs.get(comp)
+        if x is None or y is None:
+            raise Unmodelled('date record without %s' % comp)
+        same = interp.truth(rich_compare(interp, 'eq', x, y, '%s.%s == %s.%s' % (text, comp, text, comp)), '%s equal' % comp)
+        if not same:
+            if name in ('eq', 'ne'):
+                return Const(name == 'ne')
+            return Const(interp.truth(rich_compare(interp, strict, x, y, text), '%s %s' % (comp, strict)))
+    return Const(name in ('eq', 'le', 'ge'))
+
+
 def rich_compare(interp, name, a, b, text='', pure=False):
     # abstract date-time records (component-wise objects used by the calendar rules): compared through their symbol
     if isinstance(a, Obj) and isinstance(b, Obj) and '<sym>' in a.attrs and '<sym>' in b.attrs:
         return rich_compare(interp, name, a.attrs['<sym>'], b.attrs['<sym>'], text, pure)
+    if is_dt_record(a) and is_dt_record(b):
+        return dt_record_compare(interp, name, a, b, text)
     # dunder dispatch on package objects
     if isinstance(a, Obj):
         m = interp.get_method(a, CMP_DUNDER[name])
